@@ -10,7 +10,7 @@ from hypothesis import strategies as st
 from pbt import docs, jsongen as jg, refserver as ref, serverharness as sh, stdreg
 from pbt.runner import Check, Disc, Outcome
 
-from checks.c01 import BATCH_LIMITS, batch_limit, doc_classes
+from checks.c01 import BATCH_LIMITS, CODEC_CHOICES, batch_limit, doc_classes
 
 CODE_CLAUSE_PREFIXES = ('code/', 'app-error', 'lib-error', 'expected-error', 'expected-success', 'nothing-vs-response', 'id')
 
@@ -50,8 +50,8 @@ class C03(Check):
             gen = docs.document(reg, kinds=['single'] * 5 + ['batch'] * 5 + ['mangled', 'raw', 'value'],
                                 flavours=['valid'] * 10 + ['unknown-method'] * 2 + ['deviant', 'deviant', 'non-object'])
             return st.builds(
-                lambda text, beh, mbs: {'dispatcher': kind, 'max_batch_size': batch_limit(text, mbs), 'behaviours': beh, 'text': text},
-                gen, stdreg.behaviours(), st.sampled_from(BATCH_LIMITS),
+                lambda text, beh, mbs, codec: {'dispatcher': kind, 'max_batch_size': batch_limit(text, mbs), 'behaviours': beh, 'text': text, 'codec': codec},
+                gen, stdreg.behaviours(), st.sampled_from(BATCH_LIMITS), st.sampled_from(CODEC_CHOICES),
             )
         return st.one_of(for_kind('sync'), for_kind('async'))
 
@@ -84,7 +84,7 @@ class C03(Check):
     def run_case(self, spec: Any) -> Outcome:
         obs = sh.observe(spec)
         registry, behaviours = sh.registry_of(spec), sh.behaviours_of(spec)
-        exp = ref.expect(obs.request_text, registry, behaviours, spec.get('max_batch_size'))
+        exp = ref.expect(obs.request_text, registry, behaviours, spec.get('max_batch_size'), spec.get('codec', 'default'))
         discs: List[Disc] = []
         classes = doc_classes(spec, exp)
         if obs.raised is not None:
